@@ -311,6 +311,22 @@ def run_case(spec, ctx):
                                 owners.append(n2)
                         except (E.Undefined, E.Undecidable, E.Unsupported):
                             pass
+                    if owners and be == "c":
+                        # a wrong default that equals another name's default is a slot event only if the value itself is computed
+                        # correctly: C evaluates 3/2 in int (C02's subject); with the literals typed double the slot must agree
+                        from .c02 import int_to_double
+
+                        alt = int_to_double(oc.value)
+                        if alt != oc.value:
+                            m2 = B.open_module(be, alt, ref)
+                            try:
+                                if not m2.compile_errors and m2.build(which=("asan",)):
+                                    r2 = m2.run([(fn, {}, None, None)])[0]
+                                    if r2.exc is None and C.judge(r2.out[maps[kind][n]], val) == "ok":
+                                        cn["init_value_defects_attributed_to_C02"] = cn.get("init_value_defects_attributed_to_C02", 0) + 1
+                                        owners = []
+                            finally:
+                                m2.close()
                     if owners:
                         out["violations"].append({"kind": "init_default_slot", "detail": {"fn": fn, "name": n, "slot": maps[kind][n], "got": r.out[maps[kind][n]], "expected": float(val.v), "value_belongs_to": owners[:3], "backend": be}})
                     else:
